@@ -508,12 +508,26 @@ struct Ids {
     reservations: u32,
     addresses: u32,
     live_buckets: Vec<u32>,
-    live_proofs: Vec<u32>,
+    /// (proof id, bucket it locks)
+    live_proofs: Vec<(u32, Option<u32>)>,
 }
 
 fn args_tuple(rng: &mut Rng) -> ManifestValue {
     let n = rng.below(4) as usize;
-    Value::Tuple { fields: (0..n).map(|_| gen_plain_value(rng, 3)).collect() }
+    let deep = rng.chance(1, 40);
+    Value::Tuple {
+        fields: (0..n)
+            .map(|_| {
+                if deep {
+                    let d = [17usize, 18, 19][rng.below(3) as usize];
+                    let leaf = gen_plain_value(rng, 0);
+                    nest(rng, leaf, d)
+                } else {
+                    gen_plain_value(rng, 3)
+                }
+            })
+            .collect(),
+    }
 }
 
 /// values without buckets/proofs/reservations/named addresses (their ids are tracked by the
@@ -521,20 +535,20 @@ fn args_tuple(rng: &mut Rng) -> ManifestValue {
 fn gen_plain_value(rng: &mut Rng, depth: usize) -> ManifestValue {
     fn scrub(v: ManifestValue) -> ManifestValue {
         match v {
-            Value::Custom { value: ManifestCustomValue::Bucket(_) } | Value::Custom { value: ManifestCustomValue::Proof(_) } | Value::Custom { value: ManifestCustomValue::AddressReservation(_) } => Value::Custom { value: ManifestCustomValue::Expression(ManifestExpression::EntireWorktop) },
+            Value::Custom { value: ManifestCustomValue::Bucket(_) } | Value::Custom { value: ManifestCustomValue::Proof(_) } | Value::Custom { value: ManifestCustomValue::AddressReservation(_) } | Value::Custom { value: ManifestCustomValue::Blob(_) } => Value::Custom { value: ManifestCustomValue::Expression(ManifestExpression::EntireWorktop) },
             Value::Custom { value: ManifestCustomValue::Address(ManifestAddress::Named(_)) } => Value::Custom { value: ManifestCustomValue::Address(ManifestAddress::Static(*XRD.as_node_id())) },
             Value::Enum { discriminator, fields } => Value::Enum { discriminator, fields: fields.into_iter().map(scrub).collect() },
             Value::Tuple { fields } => Value::Tuple { fields: fields.into_iter().map(scrub).collect() },
             Value::Array { element_value_kind, elements } => {
                 let ek = match element_value_kind {
-                    ValueKind::Custom(ManifestCustomValueKind::Bucket) | ValueKind::Custom(ManifestCustomValueKind::Proof) | ValueKind::Custom(ManifestCustomValueKind::AddressReservation) => ValueKind::Custom(ManifestCustomValueKind::Expression),
+                    ValueKind::Custom(ManifestCustomValueKind::Bucket) | ValueKind::Custom(ManifestCustomValueKind::Proof) | ValueKind::Custom(ManifestCustomValueKind::AddressReservation) | ValueKind::Custom(ManifestCustomValueKind::Blob) => ValueKind::Custom(ManifestCustomValueKind::Expression),
                     k => k,
                 };
                 Value::Array { element_value_kind: ek, elements: elements.into_iter().map(scrub).collect() }
             }
             Value::Map { key_value_kind, value_value_kind, entries } => {
                 let fix = |k: ManifestValueKind| match k {
-                    ValueKind::Custom(ManifestCustomValueKind::Bucket) | ValueKind::Custom(ManifestCustomValueKind::Proof) | ValueKind::Custom(ManifestCustomValueKind::AddressReservation) => ValueKind::Custom(ManifestCustomValueKind::Expression),
+                    ValueKind::Custom(ManifestCustomValueKind::Bucket) | ValueKind::Custom(ManifestCustomValueKind::Proof) | ValueKind::Custom(ManifestCustomValueKind::AddressReservation) | ValueKind::Custom(ManifestCustomValueKind::Blob) => ValueKind::Custom(ManifestCustomValueKind::Expression),
                     k => k,
                 };
                 Value::Map { key_value_kind: fix(key_value_kind), value_value_kind: fix(value_value_kind), entries: entries.into_iter().map(|(k, v)| (scrub(k), scrub(v))).collect() }
@@ -577,24 +591,26 @@ fn gen_common_v1(rng: &mut Rng, ids: &mut Ids) -> InstructionV1 {
                 return InstructionV1::TakeFromWorktop(TakeFromWorktop { resource_address: XRD, amount: radix_transactions::data::to_decimal(ManifestDecimal(b)) });
             }
             2 => {
-                if let Some(b) = ids.live_buckets.pop() {
+                let free: Vec<u32> = ids.live_buckets.iter().copied().filter(|b| !ids.live_proofs.iter().any(|(_, l)| *l == Some(*b))).collect();
+                if let Some(b) = free.last().copied() {
+                    ids.live_buckets.retain(|x| *x != b);
                     return InstructionV1::ReturnToWorktop(ReturnToWorktop { bucket_id: ManifestBucket(b) });
                 }
             }
             3 => {
-                if let Some(b) = ids.live_buckets.last() {
-                    ids.live_proofs.push(ids.proofs);
+                if let Some(b) = ids.live_buckets.last().copied() {
+                    ids.live_proofs.push((ids.proofs, Some(b)));
                     ids.proofs += 1;
-                    return InstructionV1::CreateProofFromBucketOfAll(CreateProofFromBucketOfAll { bucket_id: ManifestBucket(*b) });
+                    return InstructionV1::CreateProofFromBucketOfAll(CreateProofFromBucketOfAll { bucket_id: ManifestBucket(b) });
                 }
             }
             4 => {
-                ids.live_proofs.push(ids.proofs);
+                ids.live_proofs.push((ids.proofs, None));
                 ids.proofs += 1;
                 return InstructionV1::PopFromAuthZone(PopFromAuthZone);
             }
             5 => {
-                if let Some(p) = ids.live_proofs.pop() {
+                if let Some((p, _)) = ids.live_proofs.pop() {
                     return InstructionV1::DropProof(DropProof { proof_id: ManifestProof(p) });
                 }
             }
@@ -615,7 +631,10 @@ fn gen_common_v1(rng: &mut Rng, ids: &mut Ids) -> InstructionV1 {
             11 => return InstructionV1::CallRoyaltyMethod(CallRoyaltyMethod { address: ManifestGlobalAddress::Static(global_address(rng)), method_name: method_name(rng), args: args_tuple(rng) }),
             12 => return InstructionV1::CallMetadataMethod(CallMetadataMethod { address: ManifestGlobalAddress::Static(global_address(rng)), method_name: method_name(rng), args: args_tuple(rng) }),
             13 => return InstructionV1::CallRoleAssignmentMethod(CallRoleAssignmentMethod { address: ManifestGlobalAddress::Static(global_address(rng)), method_name: method_name(rng), args: args_tuple(rng) }),
-            14 => return InstructionV1::DropAllProofs(DropAllProofs),
+            14 => {
+                ids.live_proofs.clear();
+                return InstructionV1::DropAllProofs(DropAllProofs);
+            }
             _ => return InstructionV1::AssertWorktopContainsAny(AssertWorktopContainsAny { resource_address: XRD }),
         }
     }
@@ -784,7 +803,9 @@ fn names_have_special(n: &ManifestObjectNames) -> bool {
 }
 
 fn classify_compile_error(names: &ManifestObjectNames, e: &str) -> String {
-    if names_have_special(names) {
+    if e.contains("UnexpectedEof") && e.contains("full_index: 0, line_idx: 0, line_char_index: 0 }, end: Position { full_index: 0,") {
+        "recompile-error:empty-manifest".to_string()
+    } else if names_have_special(names) {
         "recompile-error:name-with-quote-or-backslash".to_string()
     } else if e.contains("MaxDepthExceeded") {
         "recompile-error:depth".to_string()
@@ -798,8 +819,13 @@ fn classify_compile_error(names: &ManifestObjectNames, e: &str) -> String {
 }
 
 fn classify_instruction_diff(a: &str, b: &str) -> String {
-    let _ = b;
-    if a.contains("create_validator") {
+    // CallMethod { address: Static(<consensus-manager-typed address other than CONSENSUS_MANAGER>), method_name: "create_validator" }
+    let canonical = format!("{:?}", ManifestGlobalAddress::Static(CONSENSUS_MANAGER.into()));
+    let alias = a.split("CallMethod(").skip(1).any(|seg| {
+        let head = &seg[..seg.find("args:").unwrap_or(seg.len())];
+        head.contains("method_name: \"create_validator\"") && !head.contains(&canonical)
+    });
+    if alias && b.contains(&canonical) {
         "roundtrip:instructions-differ:create-validator-alias".to_string()
     } else {
         "roundtrip:instructions-differ".to_string()
